@@ -51,7 +51,7 @@ impl Check for C07 {
     fn runs(&self, tier: Tier) -> u64 {
         match tier {
             Tier::Quick => 270,
-            Tier::Thorough => 6000,
+            Tier::Thorough => 1500,
         }
     }
     fn generate(&self, rng: &mut Prng, tier: Tier, idx: u64) -> Value {
